@@ -342,9 +342,24 @@ def check_guarded_accumulate(ctx, rule, fkey):
     from ..expr import type_range, int_type
     n = 0
     for x in walk(f):
-        if x.get('kind') != 'CompoundAssignOperator' or x.get('opcode') not in ('*=', '+=', '-='):
+        op_ = None
+        if x.get('kind') == 'CompoundAssignOperator' and x.get('opcode') in ('*=', '+=', '-='):
+            tgt, rhs = kids(x)
+            op_ = x.get('opcode')
+        elif x.get('kind') == 'BinaryOperator' and x.get('opcode') == '=':
+            # the spelled-out form  v = v * c / v = v + d / v = v - d
+            tgt, r_ = kids(x)
+            pr = peel(r_)
+            if pr is not None and pr.get('kind') == 'BinaryOperator' and pr.get('opcode') in ('*', '+', '-') and \
+                    keys.key(kids(pr)[0]) == keys.key(tgt) and peel(tgt).get('kind') == 'DeclRefExpr':
+                rhs = kids(pr)[1]
+                op_ = pr.get('opcode') + '='
+            elif pr is not None and pr.get('kind') == 'BinaryOperator' and pr.get('opcode') in ('*', '+') and \
+                    keys.key(kids(pr)[1]) == keys.key(tgt) and peel(tgt).get('kind') == 'DeclRefExpr':
+                rhs = kids(pr)[0]
+                op_ = pr.get('opcode') + '='
+        if op_ is None:
             continue
-        tgt, rhs = kids(x)
         tk, rk = keys.key(tgt), keys.key(rhs)
         it = int_type(dtype(tgt))
         if not it or it[0] < 32 or peel(tgt).get('kind') != 'DeclRefExpr':
@@ -354,7 +369,7 @@ def check_guarded_accumulate(ctx, rule, fkey):
             continue
         lo, hi = type_range(it)
         fs = F.facts_at_ast(x) or frozenset()
-        op = x.get('opcode')
+        op = op_
         ok = False
         if op == '*=' and rk.startswith('n:'):
             c = int(rk[2:])
